@@ -59,16 +59,6 @@ def rangeOffsetLimit : Mode → Int
 def isHit : Mode → Bool
   | .mem => true | .disk => true | _ => false
 
-/-- RFC 9110 14.1.2: the satisfiable part of one byte-range-spec over `n` bytes (independent of the canonisation code) -/
-def rfcPart (n : Nat) (s : RSpec) : Option CSpec :=
-  if s.offset < 0 then                                   -- suffix: the last `length` bytes
-    if s.length ≤ 0 || n = 0 then none
-    else some ⟨n - min n s.length.toNat, min n s.length.toNat⟩
-  else if s.offset.toNat ≥ n then none
-  else if s.length < 0 then some ⟨s.offset.toNat, n - s.offset.toNat⟩      -- to the end
-  else if s.length = 0 then none
-  else some ⟨s.offset.toNat, min s.length.toNat (n - s.offset.toNat)⟩
-
 /-- `clientBuildReplyHeader`: an object of unknown length is sent chunked to an HTTP/1.1 client, unless the request is (still) a
 multi-range request (`maySendChunkedReply`): then the connection is closed after the body -/
 def plainReply (sc : Scenario) (body : Bytes) (saw : Option (Option Bytes)) (skew : Option Nat) (multiReq : Bool := false) : Reply :=
